@@ -9,16 +9,28 @@
    speak about it with a correspondence of its own: harness/props/C12.py drives the REAL Consumer through
    KafkaCodec.decode_fetch_response on really truncated message sets and compares requests / start outcome.)
 
-   Environment events (what the broker answers to the one outstanding fetch request):
-     TooSmall      a message set that is cut inside its first entry (the decoder raises ConsumerFetchSizeTooSmall)
-     Msgs k        k >= 0 complete consecutive messages starting at the fetch offset (possibly followed by a cut
-                   entry, which the decoder drops silently); the processor returns at once
+   Environment events (what comes back for the one outstanding fetch request), [Reply offs tail]:
+     offs          the offsets of the messages the set decoder yields for this answer, in the order yielded.  ANY integers:
+                   offsets below the fetch offset (the head of a compressed wrapper), gaps (compacted topics), even
+                   non-monotone ones; the consumer keeps those at or after its fetch offset (consumer.py:941-957)
+     tail          how the iteration over the answer ends:
+                     Clean         the decoder is exhausted (this includes a cut entry AFTER at least one message of
+                                   the same set, which the decoder drops silently)
+                     TooSmallTail  the decoder raises ConsumerFetchSizeTooSmall.  With offs = [] this is the usual case (the
+                                   answer is cut inside its first entry); with messages before it, it is a compressed
+                                   wrapper whose DECOMPRESSED inner set is cut in its first entry after earlier entries
+                     CorruptTail   the decoder raises anything else (ChecksumError, ProtocolError, a decompression
+                                   error...): consumer.py:849-900 _handle_fetch_error, with the default
+                                   request_retry_max_attempts = 0 (retry for ever) and no OffsetOutOfRange handling
+   In every case the messages collected so far are handed to the processor (the `finally` clause), which returns at once.
    Outputs:
      Fetch o b     a FetchRequest for offset o with max_bytes b
-     Deliver f l   the processor is called with the messages at offsets f..l
+     Deliver offs  the processor is called with the messages at these offsets
      StartFailed   the Deferred returned by start() fails with ConsumerFetchSizeTooSmall
-   Outside this model: retries after errors, offsets resolved by Offset/OffsetFetch requests, commits, stop/shutdown,
-   asynchronous processors (all Model/Consumer.v). *)
+   At the maximum buffer size the start Deferred fails first and the collected messages are STILL handed to the processor
+   afterwards (errback in the except clause, delivery in the finally clause): modelled as it is.
+   Outside this model: retry delays and attempt limits, offsets resolved by Offset/OffsetFetch requests, commits,
+   stop/shutdown, asynchronous processors (all Model/Consumer.v). *)
 From AV Require Import Base.Util.
 
 (* consumer.py:963-974: None = "already at our max. Nothing we can do" *)
@@ -31,21 +43,34 @@ Definition grow (buf : Z) (maxbuf : option Z) : option Z :=
 
 Record gstate := mkG { g_off : Z; g_buf : Z; g_failed : bool }.
 
-Inductive gev := TooSmall | Msgs (k : Z).
-Inductive gout := Fetch (o b : Z) | Deliver (first last : Z) | StartFailed.
+Inductive gtail := Clean | TooSmallTail | CorruptTail.
+Inductive gev := Reply (offs : list Z) (tail : gtail).
+Inductive gout := Fetch (o b : Z) | Deliver (offs : list Z) | StartFailed.
+
+(* consumer.py:941-957: the loop over resp.messages.  Returns (offsets collected, new fetch offset) *)
+Fixpoint accept (fo : Z) (offs : list Z) : list Z * Z :=
+  match offs with
+  | [] => ([], fo)
+  | o :: r => if (o <? fo) then accept fo r                                       (* 944-950: skipped *)
+              else let (d, fo') := accept (o + 1) r in (o :: d, fo')              (* 952-957 *)
+  end.
+
+(* consumer.py:988-992: `if messages:` *)
+Definition deliver (dl : list Z) : list gout := match dl with [] => [] | _ :: _ => [Deliver dl] end.
 
 Definition gstep (maxbuf : option Z) (s : gstate) (e : gev) : gstate * list gout :=
   if g_failed s then (s, [])                       (* no request is outstanding any more: nothing can be answered *)
   else match e with
-       | TooSmall =>
-           match grow (g_buf s) maxbuf with
-           | Some b => (mkG (g_off s) b false, [Fetch (g_off s) b])
-           | None => (mkG (g_off s) (g_buf s) true, [StartFailed])
+       | Reply offs tail =>
+           let (dl, fo) := accept (g_off s) offs in
+           match tail with
+           | Clean | CorruptTail => (mkG fo (g_buf s) false, deliver dl ++ [Fetch fo (g_buf s)])
+           | TooSmallTail =>
+               match grow (g_buf s) maxbuf with
+               | Some b => (mkG fo b false, deliver dl ++ [Fetch fo b])
+               | None => (mkG fo (g_buf s) true, StartFailed :: deliver dl)
+               end
            end
-       | Msgs k =>
-           if (k <=? 0) then (s, [Fetch (g_off s) (g_buf s)])
-           else (mkG (g_off s + k) (g_buf s) false,
-                 [Deliver (g_off s) (g_off s + k - 1); Fetch (g_off s + k) (g_buf s)])
        end.
 
 Fixpoint grun (maxbuf : option Z) (s : gstate) (evs : list gev) : gstate * list gout :=
@@ -58,23 +83,34 @@ Fixpoint grun (maxbuf : option Z) (s : gstate) (evs : list gev) : gstate * list 
 (* start(off): the first request *)
 Definition gstart (off buf : Z) : gstate * list gout := (mkG off buf false, [Fetch off buf]).
 
-(* ---- runner.  case:  1 off buf hasmax max nev ev*      ev = 0 (TooSmall) | 1 k (Msgs k)
-                 trace: (1 o b | 2 | 3 first last)*   for Fetch / StartFailed / Deliver
+(* the two events of the plain case *)
+Definition TooSmall : gev := Reply [] TooSmallTail.
+
+(* ---- runner.  case:  1 off buf hasmax max nev ev*      ev = tail LP(offs)    tail 0 Clean 1 TooSmallTail 2 CorruptTail
+                 trace: (1 o b | 2 | 3 LP(offs))*   for Fetch / StartFailed / Deliver
              case:  2 buf hasmax max                   grow -> 1 b | 0 *)
 Fixpoint parse_evs (fuel : nat) (l : list Z) : option (list gev) :=
-  match fuel with
-  | O => match l with [] => Some [] | _ => None end
-  | S f =>
-      match l with
-      | [] => Some []
-      | 0 :: r => match parse_evs f r with Some es => Some (TooSmall :: es) | None => None end
-      | 1 :: k :: r => match parse_evs f r with Some es => Some (Msgs k :: es) | None => None end
-      | _ => None
+  match l with
+  | [] => Some []
+  | t :: r =>
+      match fuel with
+      | O => None
+      | S f =>
+          match take_lp r with
+          | Some (offs, r') =>
+              let tail := if (t =? 0) then Some Clean else if (t =? 1) then Some TooSmallTail
+                          else if (t =? 2) then Some CorruptTail else None in
+              match tail, parse_evs f r' with
+              | Some tl, Some es => Some (Reply offs tl :: es)
+              | _, _ => None
+              end
+          | None => None
+          end
       end
   end.
 
 Definition out_gout (o : gout) : list Z :=
-  match o with Fetch a b => [1; a; b] | StartFailed => [2] | Deliver f l => [3; f; l] end.
+  match o with Fetch a b => [1; a; b] | StartFailed => [2] | Deliver offs => 3 :: Z.of_nat (length offs) :: offs end.
 
 Definition run_case (c : list Z) : list Z :=
   match c with
